@@ -363,6 +363,12 @@ def run_real_binary(binary, argv, files, env_extra=None, tz='UTC', stdout_to=Non
             with open('/dev/full', 'wb') as sink:
                 p = subprocess.run(args, cwd=work, env=env, stdout=sink, stderr=subprocess.PIPE, timeout=timeout, **as_scratch_user())
             return p.returncode, b'', p.stderr
+        if stdout_to == 'fsize':
+            # a regular file that cannot grow (file size limit 0): every write fails with EFBIG, the process is not killed
+            # (the signal that comes with it is ignored, as a shell started with `ulimit -f` would have it)
+            sh = 'trap "" XFSZ; ulimit -f 0; exec "$0" "$@" > out.txt'
+            p = subprocess.run(['/bin/sh', '-c', sh] + args, cwd=work, env=env, stdout=subprocess.DEVNULL, stderr=subprocess.PIPE, timeout=timeout, **as_scratch_user())
+            return p.returncode, b'', p.stderr
         if stdout_to == 'closed':
             # a pipe whose read end is closed *before* the program starts: every write fails (EPIPE / SIGPIPE), no race
             rfd, wfd = os.pipe()
